@@ -2,6 +2,7 @@ import PPLV.WR.Trans
 import PPLV.WR.TransOct
 import PPLV.WR.Trans2Lhs
 import PPLV.WR.TransOct2Gen
+import PPLV.WR.TransOct2Lhs
 import PPLV.WR.Trans2Lat
 import PPLV.WR.TransOct2Lat
 import PPLV.Lin.Parse
@@ -517,7 +518,10 @@ def run5 (R : Rnd) (n : Nat) (closed : Bool) (before : List (List ExtRat)) : Op5
     ofOpt5 false n (bdsLhsGenAffineImage R closed r (fnOf lcf) bl (fnOf rcf) br (DBM.ofLists n before))
   | .lhs false true r bl lcf br rcf =>
     ofOpt5 false n (bdsLhsGenAffinePreimage R closed r (fnOf lcf) bl (fnOf rcf) br (DBM.ofLists n before))
-  | .lhs true _ _ _ _ _ _ => .nomodel
+  | .lhs true false r bl lcf br rcf =>
+    ofOpt5 true n (octLhsGenAffineImage R closed r (fnOf lcf) bl (fnOf rcf) br (OctM.ofLists n before))
+  | .lhs true true r bl lcf br rcf =>
+    ofOpt5 true n (octLhsGenAffinePreimage R closed r (fnOf lcf) bl (fnOf rcf) br (OctM.ofLists n before))
   | .bin oct kind c2 m2 =>
     let m1 : Mat := if oct then (OctM.ofLists n before).e else (DBM.ofLists n before).e
     let y : Mat := if oct then (OctM.ofLists n m2).e else (DBM.ofLists n m2).e
